@@ -6,6 +6,7 @@
 import CachedModel.State
 import CachedModel.Ack
 import CachedModel.Locks
+import CachedModel.LayerB
 
 namespace Cached
 
@@ -63,19 +64,21 @@ def byteHex (b : Byte) : String := String.ofList [hexDigit (b.toNat / 16), hexDi
 
 def rowHex (r : Row) : String := String.join (r.map byteHex)
 
-def State.snap (s : State) : String :=
+def State.snapWith (s : State) (wuLocked : Bool) (hiddenShard : Option Nat) : String :=
   let store := sortBy (fun a b => a.1 < b.1) s.store
   let storeS := joinWith "," (store.map (fun p => s!"{p.1}:{p.2.value}:{p.2.id}:{optNatStr p.2.expiry}:{if p.2.soft then 1 else 0}"))
   let kw := sortBy (fun a b => a.1 < b.1) s.adm.kw
   let kwS := joinWith "," (kw.map (fun p => s!"{p.1}:{p.2.key}:{p.2.hash}:{p.2.weight}"))
-  let ttl := sortBy (fun a b => a.1.1 < b.1.1 || (a.1.1 == b.1.1 && a.1.2 < b.1.2)) s.ttl
+  let ttl := sortBy (fun a b => a.1.1 < b.1.1 || (a.1.1 == b.1.1 && a.1.2 < b.1.2)) (s.ttl.filter (fun p => some p.1.1 != hiddenShard))
   let ttlS := joinWith "," (ttl.map (fun p => s!"{p.1.1}:{p.1.2}:{p.2}"))
   let acksS := joinWith "," (s.acks.map Status.str)
   let rowsS := joinWith ";" (s.lfu.fc.rows.map (fun p => rowHex p.2))
   let poolS := joinWith "|" (s.pool.map (fun b => joinWith "." (b.map toString)))
   let qS := if s.worker = .dead then "-" else toString s.queue.length
   let bqS := if s.consumerAlive then toString s.bufq.length else "-"
-  s!"now={s.now} store=[{storeS}] kw=[{kwS}] wu={s.adm.used} ttl=[{ttlS}] q={qS} acks=[{acksS}] incs={s.lfu.incs} rows={rowsS} pool={poolS} bufq={bqS} stats={joinWith "," (s.stats.toList.map toString)} shut={if s.shutting then 1 else 0} worker={if s.worker = .dead then 0 else 1} consumer={if s.consumerAlive then 1 else 0} sweeper={if s.sweeperAlive then 1 else 0}"
+  s!"now={s.now} store=[{storeS}] kw=[{kwS}] wu={if wuLocked then "locked" else toString s.adm.used} ttl=[{ttlS}] q={qS} acks=[{acksS}] incs={s.lfu.incs} rows={rowsS} pool={poolS} bufq={bqS} stats={joinWith "," (s.stats.toList.map toString)} shut={if s.shutting then 1 else 0} worker={if s.worker = .dead then 0 else 1} consumer={if s.consumerAlive then 1 else 0} sweeper={if s.sweeperAlive then 1 else 0}"
+
+def State.snap (s : State) : String := s.snapWith false none
 
 -- ---------- parsing ----------
 
@@ -325,7 +328,67 @@ def driveLocks (toks : List String) : String :=
     else "R ok"
   | _ => "R bad-locks-line"
 
+-- ---------- Layer B, lines `BC <cfg> clients=n` and `B <action> [oracle]` ----------
+
+def B.WPc.point : B.WPc → String
+  | .recv => "worker.recv" | .present _ => "store.present" | .space0 _ => "wu.space" | .sampleInit .. => "sample.init"
+  | .evRemove .. => "kw.remove" | .evSub .. => "wu.sub" | .evStore .. => "store.remove" | .evSpace .. => "wu.space"
+  | .fill .. => "sample.fill" | .emptySpace _ => "wu.space" | .insert _ => "kw.insert" | .add _ => "wu.add"
+  | .storePut _ => "store.put" | .ttlPut .. => "ttl.put" | .update .. => "kw.update" | .delStore .. => "store.remove"
+  | .delKw .. => "kw.remove" | .delSub .. => "wu.sub" | .delTtl .. => "ttl.delete" | .drain => "worker.drain" | .dead => "finished"
+
+def B.SPc.point : B.SPc → String
+  | .begin => "sweep.begin" | .entry .. => "sweep.entry" | .kwRemove .. => "kw.remove" | .sub .. => "wu.sub"
+  | .store .. => "store.remove" | .fin => "sweep.end"
+
+def B.CPc.point : B.CPc → String
+  | .idle => "client.idle" | .start _ => "client.idle" | .putPresent .. => "store.present" | .idNext .. => "id.next"
+  | .send _ => "cmd.send" | .delMark _ => "delete.mark" | .getStore _ => "store.get" | .getPool .. => "pool.add"
+  | .weightRead => "wu.read" | .upUpdate .. => "upsert.update" | .upWeightOf .. => "upsert.weight_of"
+  | .upTtlPut .. => "ttl.put" | .upTtlDelete .. => "ttl.delete" | .upTtlRemove .. => "ttl.update.remove"
+  | .upTtlInsert .. => "ttl.update.insert"
+
+def B.BState.pcs (b : B.BState) : String :=
+  let cs := joinWith " " ((List.range b.cl.length).map (fun i => s!"c{i}={(b.cl.getD i .idle).point}"))
+  let sw := if b.g.sweeperAlive || b.sw.point != "sweep.begin" then b.sw.point else "finished"
+  s!"w={b.w.point} s={sw} {cs}"
+
+def B.BState.snap (b : B.BState) : String := b.g.snapWith b.wuOwner.isSome b.ttlOwner
+
+def parseReq? (toks : List String) : Option B.Req :=
+  match toks with
+  | ["putw", k, v, w, t] => do pure (.putW (← k.toNat?) (← v.toNat?) (← parseInt? w) (← parseOptNat? t))
+  | ["delete", k] => do pure (.delete (← k.toNat?))
+  | ["get", k] => do pure (.get (← k.toNat?))
+  | ["weight"] => some .weight
+  | ["upsert", k, v, w, t, rm] => do pure (.upsert (← k.toNat?) (← parseOptNat? v) (← parseOptInt? w) (← parseOptNat? t) (rm == "1"))
+  | _ => none
+
+def parseBAct? (toks : List String) : Option (B.Act × List String) :=
+  match toks with
+  | "issue" :: i :: rest => do pure (.issue (← i.toNat?) (← parseReq? rest), [])
+  | "client" :: i :: rest => do pure (.client (← i.toNat?), rest)
+  | "worker" :: rest => some (.worker, rest)
+  | "sweeper" :: rest =>
+    (match rest with
+     | [v] => (match (kvOf v) with
+        | ("visit", x) => x.toNat?.map (fun n => (.sweeper (some n), []))
+        | _ => none)
+     | [] => some (.sweeper none, [])
+     | _ => none)
+  | "consumer" :: rest => some (.consumer, rest)
+  | "advance" :: d :: _ => do pure (.advance (← d.toNat?), [])
+  | _ => none
+
+def newResult (before after : B.BState) : String :=
+  let pairs := (List.range after.res.length).filterMap (fun i =>
+    let a := after.res.getD i []
+    let b := before.res.getD i []
+    if a.length > b.length then (a.head?).map (fun o => s!"c{i}:{o.str}") else none)
+  if pairs.isEmpty then "-" else joinWith ";" pairs
+
 structure DriverState where
+  bst : Option B.BState := none
   st : Option State := none
   broken : Bool := false     -- after an illegal oracle / event the rest of the case is skipped
 
@@ -335,6 +398,28 @@ def driveLine (d : DriverState) (line : String) : DriverState × Option String :
   match toks with
   | [] => (d, none)
   | "#" :: _ => (d, some line.trimAscii.toString)
+  | "BC" :: rest0 =>
+    let rest := rest0.filter (fun t => !t.startsWith "#")
+    let clients := ((rest.filterMap (fun t => let (k, v) := kvOf t; if k == "clients" then v.toNat? else none)).head?).getD 1
+    (match parseCfg (rest.filter (fun t => (kvOf t).1 != "clients")) with
+     | some (cfg, now, seeds) =>
+       let b := B.BState.init cfg now seeds clients
+       ({ d with bst := some b, broken := false }, some s!"R init | {b.pcs} | {b.snap}")
+     | none => ({ d with bst := none, broken := true }, some "R bad-cfg"))
+  | "B" :: rest0 =>
+    let rest := rest0.filter (fun t => !t.startsWith "#")
+    if d.broken then (d, some "R skipped")
+    else (match d.bst, parseBAct? rest with
+      | some b, some (act, otoks) =>
+        (match parseOracle otoks with
+         | none => ({ d with broken := true }, some "R bad-oracle")
+         | some o =>
+           match B.stepB b act o with
+           | .ok (b', o') =>
+             if o'.isEmpty then ({ d with bst := some b' }, some s!"R {newResult b b'} | {b'.pcs} | {b'.snap}")
+             else ({ d with broken := true }, some "R illegal: oracle values left unconsumed")
+           | .error m => ({ d with broken := true }, some s!"R illegal: {m}"))
+      | _, _ => ({ d with broken := true }, some "R bad-action"))
   | "A" :: rest => (d, some (driveAck rest))
   | "P" :: rest => (d, some (drivePure rest))
   | "L" :: rest => (d, some (driveLocks rest))
